@@ -173,7 +173,7 @@ NOT_YET = "check not built yet in this session (in progress; see DESIGN.md secti
 # additions of the third pass (see DESIGN.md section 8.4): appended to the level text of each check
 EXTRA_TEXT = {
     'C01': ' A directed strongly anisotropic Gaussian family (depth 3, overlapping sub-tree checks on) and slice-variable comparisons that return numpy booleans like the real float64 comparisons are part of every run.',
-    'C02': ' Start states carry a history (cache populated elsewhere, then copied/pickled/deep-copied, then assigned); after the first round trip system.metric is reassigned on the used system and the trip repeated at the same step size; a hostile implicit family (Riemannian systems, steps up to 6x the local period scale, momenta up to 12 sigma) drives the reversibility checks into refusing steps; a single-step round trip whose reversed step raises is re-run with a 20x iteration budget before it is reported.',
+    'C02': ' Start states carry a history (cache populated elsewhere, then copied/pickled/deep-copied, then assigned); after the first round trip system.metric is reassigned on the used system and the trip repeated at the same step size; a hostile implicit family (Riemannian systems, steps up to 6x the local period scale, momenta up to 12 sigma) drives the reversibility checks into refusing steps.',
     'C03': ' The finite-difference Jacobian is formed from start states that carry a history (used elsewhere, then copied/pickled/deep-copied, then assigned).',
     'C04': " One state object is moved over several manifold points without assigning a momentum (contracts judge every projection/momentum draw at the current position); the real metric adapters' finalize is driven on a used state and whole chains with a windowed stager and a metric adapter are judged against the adapted metric; a hostile family sizes steps without regard to curvature on restricted-domain (log) and explosively growing (exp) constraints.", 'C05': ' Every case also runs a 14-call history on ONE state object (position-only / momentum-only / joint re-assignments, a copy in the middle, repeats) judging every returned value; SoftAbs systems are evaluated at exactly and nearly repeated Hessian eigenvalues with rotated eigenvectors; systems are used for flows / momentum draws before any value method in half of the cases; raw array metrics at overall scales 1e-12..1e6.',
     'C06': ' After the first measurement system.metric is reassigned on the used system and the orders are measured again against the flow of the new Hamiltonian; start states carry a history.',
